@@ -197,6 +197,30 @@ pub enum Pos {
     Exact,
     /// event field `.aN` typed `any`
     Any,
+    /// event field `.aN` whose external kind is the union of the value's exact kind and the
+    /// kinds named by the mask (array/object bits: any array / any object)
+    Union(u16),
+}
+
+/// the kind named by a bit mask
+pub fn kind_of_mask(mask: u16) -> Kind {
+    let mut k = Kind::never();
+    for b in BITS {
+        if mask & b != 0 {
+            k = k.union(match b {
+                BYTES => Kind::bytes(),
+                INTEGER => Kind::integer(),
+                FLOAT => Kind::float(),
+                BOOLEAN => Kind::boolean(),
+                OBJECT => Kind::object(Collection::any()),
+                ARRAY => Kind::array(Collection::any()),
+                TIMESTAMP => Kind::timestamp(),
+                REGEX => Kind::regex(),
+                _ => Kind::null(),
+            });
+        }
+    }
+    k
 }
 
 #[derive(Clone, Copy, Debug, PartialEq, Eq, Serialize, Deserialize)]
@@ -274,7 +298,11 @@ impl CallCase {
                 None => {
                     let name = format!("a{i}");
                     let val = a.v.to_value();
-                    let k = if a.pos == Pos::Any { Kind::any() } else { Kind::from(&val) };
+                    let k = match a.pos {
+                        Pos::Any => Kind::any(),
+                        Pos::Union(mask) => Kind::from(&val).union(kind_of_mask(mask)),
+                        _ => Kind::from(&val),
+                    };
                     known.insert(name.as_str().into(), k);
                     event.insert(name.as_str().into(), val);
                     format!(".{name}")
@@ -1329,8 +1357,14 @@ fn arg_strategy(p: &'static ParamSpec, prof: Profile) -> BoxedStrategy<Option<Ar
     let pinned = p.pinned_lit;
     let query = p.query;
     let required = p.required;
-    (arg_value(p, prof), 0u8..100, 0u8..100, any::<bool>())
-        .prop_map(move |((v, wrong), pr, nm, present)| {
+    // union masks: mostly one or two extra kinds (the interesting static types are small unions)
+    let union_mask = prop_oneof![
+        3 => (0usize..BITS.len()).prop_map(|i| BITS[i]),
+        3 => (0usize..BITS.len(), 0usize..BITS.len()).prop_map(|(i, j)| BITS[i] | BITS[j]),
+        1 => any::<u16>().prop_map(|m| m & 0x3fe),
+    ];
+    (arg_value(p, prof), 0u8..100, 0u8..100, any::<bool>(), union_mask)
+        .prop_map(move |((v, wrong), pr, nm, present, umask)| {
             if !required && !present {
                 return None;
             }
@@ -1351,10 +1385,12 @@ fn arg_strategy(p: &'static ParamSpec, prof: Profile) -> BoxedStrategy<Option<Ar
                 } else {
                     Pos::Lit
                 }
-            } else if pr < 35 {
+            } else if pr < 32 {
                 Pos::Lit
-            } else if pr < 65 {
+            } else if pr < 56 {
                 Pos::Exact
+            } else if pr < 72 {
+                Pos::Union(umask)
             } else {
                 Pos::Any
             };
